@@ -14,7 +14,7 @@ theorem curOK_of_eq {st st' : St} (h1 : st'.cur = st.cur) (h2 : st'.sub = st.sub
   exact h
 
 theorem pLoop_step (f : Nat) (ih : ∀ f', f' < f → PAll f') : PLoop f := by
-  intro pl pos its rst rst' hr hn hw hoi st stf c hcur hp hco hty hoff h0 hpos hle hrun
+  intro pl pos its rst rst' hr hn hw st stf c hcur hp hco hty hoff h0 hpos hle hrun
   cases f with
   | zero => rw [loopB.eq_1] at hr; cases hr
   | succ f =>
@@ -22,9 +22,83 @@ theorem pLoop_step (f : Nat) (ih : ∀ f', f' < f → PAll f') : PLoop f := by
   | nil =>
     rw [loopB.eq_2] at hr; cases hr
     rw [run_nil hrun]
-    exact ⟨hle, Frame.refl _ _, hp, rfl, rfl⟩
+    exact ⟨hle, Frame.refl _ _, rfl, rfl⟩
   | cons ds i rest =>
-    obtain ⟨rfl, hoi1, hor⟩ := okIs_cons hoi
+    have hcsub : c ≤ st.sub := by unfold CurOK at hco; rw [hcur] at hco; exact hco.1
+    have hicc : (st.obj c).iscur = true := by unfold CurOK at hco; rw [hcur] at hco; exact hco.2.1
+    -- the items behind this one: `loopB` at the next position
+    have finish : ∀ (q : Nat) (ch : Place) (rest1 : Items) (rst1 : RSt) (st3 : St),
+        loopB f pl (q + 1) rest1 rst1 = .ok rst' → rst'.nswitch = rst1.nswitch → Run st3 rest1 stf → c < st3.sub →
+        Lvl st3 c pl q ch → (HeadPlain rest1 → ∀ j, c < j → j < st3.sub → Exh st3 j) → CurOK st3 →
+        Frame c st st3 → LogEq st3 rst1 →
+        LogEq stf rst' ∧ Frame c st stf ∧ (stf.obj c).ty = (st.obj c).ty ∧
+          (stf.obj c).offset = (st.obj c).offset := by
+      intro q ch rest1 rst1 st3 hr e3 hrun3 hlt3 hl3 hex3 hco3 hf3 hle3
+      have hp3 : Flat st3 c := hp.frame hf3 (by rw [hl3.ty, hty])
+      obtain ⟨r1, r2, r4, r5⟩ := (ih f (Nat.lt_succ_self _)).2.2.2.1 pl (q + 1) rest1 rst1 rst' hr e3 hw
+        st3 stf c (by rw [hf3.cur]; exact hcur) hp3 hco3 hl3.ty hl3.off (by intro h; omega)
+        (by intro p' hp'; have : p' = q := by omega
+            subst this; exact ⟨hlt3, ⟨ch, hl3⟩, hex3⟩) hle3 hrun3
+      exact ⟨r1, hf3.trans r2 (Nat.le_refl _), by rw [r4, hl3.ty, hty], by rw [r5, hl3.off, hoff]⟩
+    cases ds with
+    | cons d ds =>
+      -- a designation: `designator()` against `resolve`/`desigPath`
+      rw [loopB.eq_4] at hr
+      cases hres : resolve pl.ty d with
+      | error er => rw [hres] at hr; cases hr
+      | ok path =>
+      rw [hres] at hr
+      cases path with
+      | nil => cases hr
+      | cons p ps =>
+      simp only [] at hr
+      cases hc : childAt pl p false with
+      | none => rw [hc] at hr; cases hr
+      | some ch =>
+      rw [hc] at hr
+      simp only [] at hr
+      cases hi : desigPath f ch ps ds i rest (grow (enter rst pl p) pl p) with
+      | error er => rw [hi] at hr; cases hr
+      | ok x =>
+      obtain ⟨rest1, rst1⟩ := x
+      rw [hi] at hr
+      simp only [] at hr
+      have n1 := enter_nswitch_le rst pl p
+      have n2 := (nsw_all f).2.2.2.2 _ _ _ _ _ _ _ hi
+      have n3 := (nsw_all f).2.2.2.1 _ _ _ _ _ hr
+      rw [grow_nswitch] at n2
+      simp only [] at n2
+      have e1 : (enter rst pl p).nswitch = rst.nswitch := by omega
+      have e2 : rst1.nswitch = (grow (enter rst pl p) pl p).nswitch := by rw [grow_nswitch]; omega
+      have e3 : rst'.nswitch = rst1.nswitch := by omega
+      obtain ⟨stp, sta, hpre, hbody, hrun2⟩ := run_cons hrun
+      have hpre' : designator st (d :: ds) = .ok stp := by
+        unfold preStep at hpre
+        rw [hcur] at hpre
+        simpa using hpre
+      obtain ⟨d1, d2, d3, d5, d6, d7, d8, d9⟩ := designator_spec hcur hty hoff hw hp hpre'
+      cases d1 with
+      | res hres' hne hd =>
+      rw [hres] at hres'
+      cases hres'
+      cases hd with
+      | step hl hd' =>
+      have hcc := hl.child
+      rw [hc] at hcc
+      cases hcc
+      have hwc : PlWf ch := childAt_wf hw hc
+      have hcop : CurOK stp := by
+        unfold CurOK
+        rw [d2.cur, hcur]
+        exact ⟨Nat.le_of_lt d5, by rw [d8]; exact hicc, fun j h1 h2 => d9 j h1 (Nat.le_of_lt h2)⟩
+      obtain ⟨st3, hrun3, haf3, hle3⟩ := (ih f (Nat.lt_succ_self _)).2.2.2.2 ch ps ds i rest _ rest1 rst1 hi e2 hwc
+        stp sta stf (c + 1) c hd' (by rw [d2.cur]; exact hcur) (Nat.lt_succ_self _) hcop
+        (d9 _ d5 (Nat.le_refl _)) (by unfold LogEq; rw [d3, grow_log, enter_log e1]; exact hle)
+        (bodyRun_of_itemBody hbody) hrun2
+      exact finish p ch rest1 rst1 st3 hr e3 hrun3 (by have := haf3.le; omega) (hl.frame haf3.frame (Nat.lt_succ_self _))
+        (fun hh j h1 h2 => haf3.exh hh j (by omega) h2) haf3.curok
+        (d2.trans (haf3.frame.mono (Nat.le_succ _)) (Nat.le_refl _)) hle3
+    | nil =>
     rw [loopB.eq_3] at hr
     cases hc : childAt pl pos true with
     | none => rw [hc] at hr; cases hr
@@ -46,29 +120,27 @@ theorem pLoop_step (f : Nat) (ih : ∀ f', f' < f → PAll f') : PLoop f := by
     have e2 : rst1.nswitch = (grow (enter rst pl pos) pl pos).nswitch := by rw [grow_nswitch]; omega
     have e3 : rst'.nswitch = rst1.nswitch := by omega
     obtain ⟨stp, sta, hpre, hbody, hrun2⟩ := run_cons hrun
-    have hcsub : c ≤ st.sub := by unfold CurOK at hco; rw [hcur] at hco; exact hco.1
-    have hicc : (st.obj c).iscur = true := by unfold CurOK at hco; rw [hcur] at hco; exact hco.2.1
     have hwc : PlWf ch := childAt_wf hw hc
     have key : ∃ st3, Run st3 rest1 stf ∧ c < st3.sub ∧ Lvl st3 c pl pos ch ∧
-        (HeadPlain rest1 → ∀ j, c < j → j < st3.sub → Exh st3 j) ∧ Plain st3 ∧ CurOK st3 ∧ Frame c st st3 ∧
+        (HeadPlain rest1 → ∀ j, c < j → j < st3.sub → Exh st3 j) ∧ CurOK st3 ∧ Frame c st st3 ∧
         LogEq st3 rst1 := by
       have fin : ∀ (stp' : St) (pf : Nat), stp'.sub = c + 1 → Lvl stp' c pl pos ch → SP stp' (c + 1) ch →
           Frame c st stp' → stp'.log = st.log → (stp'.obj c).iscur = (st.obj c).iscur →
-          (stp'.obj (c + 1)).iscur = false → Plain stp' → BodyRun pf stp' i sta →
+          (stp'.obj (c + 1)).iscur = false → BodyRun pf stp' i sta →
           ∃ st3, Run st3 rest1 stf ∧ c < st3.sub ∧ Lvl st3 c pl pos ch ∧
-            (HeadPlain rest1 → ∀ j, c < j → j < st3.sub → Exh st3 j) ∧ Plain st3 ∧ CurOK st3 ∧ Frame c st st3 ∧
+            (HeadPlain rest1 → ∀ j, c < j → j < st3.sub → Exh st3 j) ∧ CurOK st3 ∧ Frame c st st3 ∧
             LogEq st3 rst1 := by
-        intro stp' pf a1 a2 a3 a4 a5 a6 a7 a8 a9
-        obtain ⟨st3, hrun3, haf3, hle3, hl3, hf3⟩ := child_item (ih f (Nat.lt_succ_self _)).1 hi e1 e2 hw hoi1 hor
-          hcur (Nat.le_refl c) hco hcsub (fun h => absurd h (Nat.lt_irrefl _)) a1 a2 a3 a4 a5 a6 a7 a8 hle a9 hrun2
+        intro stp' pf a1 a2 a3 a4 a5 a6 a7 a9
+        obtain ⟨st3, hrun3, haf3, hle3, hl3, hf3⟩ := child_item (ih f (Nat.lt_succ_self _)).1 hi e1 e2 hw
+          hcur (Nat.le_refl c) hco hcsub (fun h => absurd h (Nat.lt_irrefl _)) a1 a2 a3 a4 a5 a6 a7 hle a9 hrun2
         exact ⟨st3, hrun3, by have := haf3.le; omega, hl3, fun hh j h1 h2 => haf3.exh hh j (by omega) h2,
-          haf3.plain, haf3.curok, hf3, hle3⟩
+          haf3.curok, hf3, hle3⟩
       cases pos with
       | succ p =>
         obtain ⟨hcs, ⟨chp, hlp⟩, hexp⟩ := hpos p rfl
         rw [preStep_nil_adv hcur (by omega)] at hpre
-        obtain ⟨h1, h2, h3, h4, h5, h6, h7, h8⟩ := advance_to_next hcs hp hw hlp (hexp ⟨i, rest, rfl⟩) hc hpre
-        exact fin stp 34 h1 h2 h3 h4 h5 h6 h7 h8 (bodyRun_of_itemBody hbody)
+        obtain ⟨h1, h2, h3, h4, h5, h6, h7⟩ := advance_to_next hcs hp hw hlp (hexp ⟨i, rest, rfl⟩) hc hpre
+        exact fin stp 34 h1 h2 h3 h4 h5 h6 h7 (bodyRun_of_itemBody hbody)
       | zero =>
         obtain ⟨hs0, hz⟩ := h0 rfl
         cases hpt : pl.ty with
@@ -76,11 +148,10 @@ theorem pLoop_step (f : Nat) (ih : ∀ f', f' < f → PAll f') : PLoop f := by
         | agg u tag size ms =>
           rw [preStep_nil_agg hcur hs0 (hty.trans hpt)] at hpre
           obtain ⟨ch2, hch2, hs2, hl2, hsp2, hf2, hlog2, hic2, hic2'⟩ :=
-            focus_step hp hw (by rw [hs0]; exact hty) (by rw [hs0]; exact hoff) hpre
+            focus_step (by rw [hs0]; exact hp) hw (by rw [hs0]; exact hty) (by rw [hs0]; exact hoff) hpre
           rw [hc] at hch2; cases hch2
           rw [hs0] at hs2 hl2 hsp2 hf2 hic2 hic2'
-          exact fin stp 34 hs2 hl2 hsp2 hf2 hlog2 hic2 hic2' (hf2.plain' hp (by rw [hl2.ty, hty]))
-            (bodyRun_of_itemBody hbody)
+          exact fin stp 34 hs2 hl2 hsp2 hf2 hlog2 hic2 hic2' (bodyRun_of_itemBody hbody)
         | array n el =>
           rw [preStep_nil_array hcur hs0 (hty.trans hpt)] at hpre
           cases hpre
@@ -110,18 +181,20 @@ theorem pLoop_step (f : Nat) (ih : ∀ f', f' < f → PAll f') : PLoop f := by
                 rw [hfo] at hb
                 simp only [] at hb
                 obtain ⟨ch2, hch2, hs2, hl2, hsp2, hf2, hlog2, hic2, hic2'⟩ :=
-                  focus_step hp hw (by rw [hs0]; exact hty) (by rw [hs0]; exact hoff) hfo
+                  focus_step (by rw [hs0]; exact hp) hw (by rw [hs0]; exact hty) (by rw [hs0]; exact hoff) hfo
                 rw [hc] at hch2; cases hch2
                 rw [hs0] at hs2 hl2 hsp2 hf2 hic2 hic2'
-                exact fin st2 33 hs2 hl2 hsp2 hf2 hlog2 hic2 hic2' (hf2.plain' hp (by rw [hl2.ty, hty])) hb
+                exact fin st2 33 hs2 hl2 hsp2 hf2 hlog2 hic2 hic2' hb
           | list its' =>
             obtain ⟨hbs, hbc, hbo, hbt, hbi⟩ := braceClear_fields st
-            have hbp : Plain (braceClear st) := ⟨by rw [hbi]; exact hp.inc, by rw [hbt, hbo]; exact hp.top⟩
+            have hbp : Flat (braceClear st) (braceClear st).sub := by
+              rw [hbs, hs0]
+              exact hp.frame ⟨hbc, hbt, hbi, fun j _ => by rw [hbo]⟩ (by rw [hbo])
             have hcob : CurOK (braceClear st) := curOK_of_eq hbc hbs hbo hco
             -- the images after the `initclear` of the whole array
             have hnsc : isScalarTy (st.obj st.sub).ty = false := by rw [hs0, hty, hpt]; rfl
             have hM : ImgEq ((braceClear st).log.map evWrite) rst.log := by
-              rw [braceClear_clear hcur hp hnsc]
+              rw [braceClear_clear hcur (by rw [hs0]; exact hp) hnsc]
               show ImgEq ((st.log ++ [_]).map evWrite) _
               rw [map_evWrite_append, evWrite_clear, hs0, hoff, hty]
               exact (hle.snoc _).trans (imgEq_zw_noop hz (Nat.le_refl _) (Nat.le_refl _))
@@ -142,18 +215,17 @@ theorem pLoop_step (f : Nat) (ih : ∀ f', f' < f → PAll f') : PLoop f := by
             have hfoc : ∀ st2, focus (braceClear st) = .ok st2 →
                 st2.sub = c + 1 ∧ Lvl st2 c pl 0 ch ∧ SP st2 (c + 1) ch ∧ Frame c st st2 ∧
                 st2.log = (braceClear st).log ∧ (st2.obj c).iscur = (st.obj c).iscur ∧
-                (st2.obj (c + 1)).iscur = false ∧ Plain st2 ∧ CurOK st2 := by
+                (st2.obj (c + 1)).iscur = false ∧ CurOK st2 := by
               intro st2 hfo
               obtain ⟨ch2, hch2, hs2, hl2, hsp2, hf2, hlog2, hic2, hic2'⟩ :=
                 focus_step hbp hw (by rw [hbs, hbo, hs0]; exact hty) (by rw [hbs, hbo, hs0]; exact hoff) hfo
               rw [hc] at hch2; cases hch2
               rw [hbs, hs0] at hs2 hl2 hsp2 hf2 hic2 hic2'
               rw [hbo] at hic2
-              have hp2 : Plain st2 := hf2.plain' hbp (by rw [hl2.ty, hbo, hty])
               have hco2 : CurOK st2 := curOK_step hcob (by rw [hbc]; exact hcur) (Nat.le_refl c)
                 (by rw [hbs]; exact hcsub) hf2 (by rw [hbo]; exact hic2) hs2 (fun h => absurd h (Nat.lt_irrefl _))
               exact ⟨hs2, hl2, hsp2, Frame.trans (m := c) ⟨hbc, hbt, hbi, fun j _ => by rw [hbo]⟩ hf2 (Nat.le_refl _),
-                hlog2, hic2, hic2', hp2, hco2⟩
+                hlog2, hic2, hic2', hco2⟩
             cases its' with
             | nil =>
               have hb : (match enteredE (braceClear st) with
@@ -170,8 +242,8 @@ theorem pLoop_step (f : Nat) (ih : ∀ f', f' < f → PAll f') : PLoop f := by
               | ok st2 =>
                 rw [hfo] at hb
                 simp only [] at hb
-                obtain ⟨hs2, hl2, hsp2, hf2, hlog2, hic2, hic2', hp2, hco2⟩ := hfoc st2 hfo
-                rw [hp2.tinc] at hb
+                obtain ⟨hs2, hl2, hsp2, hf2, hlog2, hic2, hic2', hco2⟩ := hfoc st2 hfo
+                rw [(flat_pos st2 (by omega : 0 < st2.sub)).tinc] at hb
                 cases hb
                 cases f with
                 | zero => rw [initOne.eq_1] at hi; cases hi
@@ -182,7 +254,7 @@ theorem pLoop_step (f : Nat) (ih : ∀ f', f' < f → PAll f') : PLoop f := by
                 | ok rb =>
                 rw [hbr] at hi
                 cases hi
-                refine ⟨sta, hrun2, by omega, hl2, fun _ j h1 h2 => by omega, hp2, hco2, hf2, ?_⟩
+                refine ⟨sta, hrun2, by omega, hl2, fun _ j h1 h2 => by omega, hco2, hf2, ?_⟩
                 unfold LogEq
                 rw [hlog2, braced_nil hbr]
                 split
@@ -203,7 +275,7 @@ theorem pLoop_step (f : Nat) (ih : ∀ f', f' < f → PAll f') : PLoop f := by
               | ok st2 =>
                 rw [hfo] at hb
                 simp only [] at hb
-                obtain ⟨hs2, hl2, hsp2, hf2, hlog2, hic2, hic2', hp2, hco2⟩ := hfoc st2 hfo
+                obtain ⟨hs2, hl2, hsp2, hf2, hlog2, hic2, hic2', hco2⟩ := hfoc st2 hfo
                 -- the reference
                 cases f with
                 | zero => rw [initOne.eq_1] at hi; cases hi
@@ -214,24 +286,63 @@ theorem pLoop_step (f : Nat) (ih : ∀ f', f' < f → PAll f') : PLoop f := by
                 | ok rb =>
                 rw [hbr] at hi
                 cases hi
-                have hois' := okI_list hoi1
-                obtain ⟨r1', r2, r3, r4, r5, r6⟩ := (ih f0 (by omega)).2.2.1 ch _ _ rst1 hbr e2 hwc hois'
+                obtain ⟨r1', r2, r3, r5, r6⟩ := (ih f0 (by omega)).2.2.1 ch _ _ rst1 hbr e2 hwc
                   (by intro h; cases h) st2 sta
-                  (fun c' hc' => by rw [hf2.cur, hcur] at hc'; cases hc'; omega) hp2 hco2
+                  (fun c' hc' => by rw [hf2.cur, hcur] at hc'; cases hc'; omega) (flat_pos st2 (by omega)) hco2
                   (by rw [hs2]; exact hic2') (by rw [hs2]; exact hsp2) (by rw [hlog2]; exact hlogeq) hb
                 rw [hs2] at r2 r3
                 have hfr : Frame c st sta := hf2.trans (r2.mono (Nat.le_succ _)) (Nat.le_refl _)
-                refine ⟨sta, hrun2, by omega, hl2.frame r2 (Nat.lt_succ_self _), fun _ j h1 h2 => by omega, r4, ?_,
+                refine ⟨sta, hrun2, by omega, hl2.frame r2 (Nat.lt_succ_self _), fun _ j h1 h2 => by omega, ?_,
                   hfr, r1'⟩
                 exact curOK_step hco hcur (Nat.le_refl c) hcsub hfr
                   (by rw [r2.low c (Nat.lt_succ_self _), hic2]) r3 (fun h => absurd h (Nat.lt_irrefl _))
-    obtain ⟨st3, hrun3, hlt3, hl3, hex3, hp3, hco3, hf3, hle3⟩ := key
-    have hsuf := (suff_all f).1 _ _ _ _ _ hi
-    have hor1 : okIs rest1 = true := okIs_suff hsuf (by simp [okIs, hoi1, hor])
-    obtain ⟨r1, r2, r3, r4, r5⟩ := (ih f (Nat.lt_succ_self _)).2.2.2 pl (pos + 1) rest1 rst1 rst' hr e3 hw hor1
-      st3 stf c (by rw [hf3.cur]; exact hcur) hp3 hco3 hl3.ty hl3.off (by intro h; omega)
-      (by intro p' hp'; have : p' = pos := by omega
-          subst this; exact ⟨hlt3, ⟨ch, hl3⟩, hex3⟩) hle3 hrun3
-    exact ⟨r1, hf3.trans r2 (Nat.le_refl _), r3, by rw [r4, hl3.ty, hty], by rw [r5, hl3.off, hoff]⟩
+    obtain ⟨st3, hrun3, hlt3, hl3, hex3, hco3, hf3, hle3⟩ := key
+    exact finish pos ch rest1 rst1 st3 hr e3 hrun3 hlt3 hl3 hex3 hco3 hf3 hle3
+
+/-- a designation: the path, then the designated sub-object, then "continue after it" at every
+level of the path (6.7.9p17) -/
+theorem pDesig_step (f : Nat) (ih : ∀ f', f' < f → PAll f') : PDesig f := by
+  intro pl ps ds i rest rst rest' rst' hr hn hw st st1 stf m c hd hcur hcm hco hic hle hb hrun
+  cases f with
+  | zero => rw [desigPath.eq_1] at hr; cases hr
+  | succ f =>
+  cases hd with
+  | done hs hsp =>
+    rw [desigPath.eq_2] at hr
+    subst hs
+    exact (ih f (Nat.lt_succ_self _)).1 pl i rest rst rest' rst' hr hn hw st st1 stf 34 c hcur hcm hco hic hsp hle hb hrun
+  | res hres hne hd' =>
+    rw [desigPath.eq_3, hres] at hr
+    simp only [] at hr
+    rw [if_neg hne] at hr
+    exact (ih f (Nat.lt_succ_self _)).2.2.2.2 pl _ _ i rest rst rest' rst' hr hn hw st st1 stf m c hd' hcur hcm hco
+      hic hle hb hrun
+  | step hl hd' =>
+    rename_i ch p ps'
+    rw [desigPath.eq_4, hl.child] at hr
+    simp only [] at hr
+    cases hi : desigPath f ch ps' ds i rest (enter rst pl p) with
+    | error er => rw [hi] at hr; cases hr
+    | ok x =>
+    obtain ⟨rest1, rst1⟩ := x
+    rw [hi] at hr
+    simp only [] at hr
+    have n1 := enter_nswitch_le rst pl p
+    have n2 := (nsw_all f).2.2.2.2 _ _ _ _ _ _ _ hi
+    have n3 := (nsw_all f).2.1 _ _ _ _ _ hr
+    simp only [] at n2 n3
+    have e1 : (enter rst pl p).nswitch = rst.nswitch := by omega
+    have e2 : rst1.nswitch = (enter rst pl p).nswitch := by omega
+    have e3 : rst'.nswitch = rst1.nswitch := by omega
+    have hwc : PlWf ch := childAt_wf hw hl.child
+    obtain ⟨st3, hrun3, haf3, hle3⟩ := (ih f (Nat.lt_succ_self _)).2.2.2.2 ch ps' ds i rest _ rest1 rst1 hi e2 hwc
+      st st1 stf (m + 1) c hd' hcur (by omega) hco hic (by unfold LogEq; rw [enter_log e1]; exact hle) hb hrun
+    obtain ⟨st', hrun', haf', hlt', hle'⟩ := (ih f (Nat.lt_succ_self _)).2.1 pl p rest1 rst1 rest' rst' hr e3 hw
+      st3 stf m c ch (by rw [haf3.frame.cur]; exact hcur) hcm (by have := haf3.le; omega) haf3.curok
+      (hl.frame haf3.frame (Nat.lt_succ_self _)) (fun hh j h1 h2 => haf3.exh hh j (by omega) h2) hle3 hrun3
+    refine ⟨st', hrun', ⟨(haf3.frame.mono (Nat.le_succ _)).trans haf'.frame (Nat.le_refl _), haf'.le,
+      haf'.curok, ?_, ?_, haf'.exh⟩, hle'⟩
+    · rw [haf'.ty, haf3.frame.low m (Nat.lt_succ_self _)]
+    · rw [haf'.off, haf3.frame.low m (Nat.lt_succ_self _)]
 
 end CprocVerif.InitSim
